@@ -216,9 +216,9 @@ func (e *vfEnd) ReaderIdle() bool {
 }
 
 type vfPipeOpts struct {
-	Buf             int  // per-direction capacity, 0 = unbounded
-	SrvKeepRead     bool // server end's Close leaves its read side open
-	ClientKeepRead  bool
+	Buf            int  // per-direction capacity, 0 = unbounded
+	SrvKeepRead    bool // server end's Close leaves its read side open
+	ClientKeepRead bool
 }
 
 // vfPipe returns the client end and the server end of a fresh connection.
